@@ -1,5 +1,4 @@
 import ast
-import pathlib
 import tokenize
 from typing import Set
 
@@ -51,7 +50,9 @@ def used_externals_in(source) -> Set[str]:
 def used_externals() -> Set[str]:
     result = set()
     for filename in state().files_with_snapshots:
-        result |= used_externals_in(pathlib.Path(filename).read_text("utf-8-sig"))
+        # tokenize.open() uses the encoding of the python file (coding cookie, byte order mark)
+        with tokenize.open(filename) as file:
+            result |= used_externals_in(file.read())
 
     return result
 
